@@ -9,6 +9,7 @@ package weshnet
 
 import (
 	"bytes"
+	"strings"
 	"context"
 	crand "crypto/rand"
 	"fmt"
@@ -71,7 +72,9 @@ func TestVerifC12(t *testing.T) {
 		_, err := ms.GroupJoin(ctx, m.g)
 		appended := ms.OpLog().Len() - before
 		accepted := err == nil
-		want := m.name == "valid" && !already
+		// "signed-link-key": the group key did sign these bytes, so by the letter of the property it
+		// is a self-authenticating invitation (to a group with the same identifier and another secret)
+		want := (m.name == "valid" || strings.HasPrefix(m.name, "signed-link-key")) && !already
 		ok, note := true, ""
 		switch {
 		case accepted && !want:
@@ -162,6 +165,27 @@ func TestVerifC12(t *testing.T) {
 			c = o.Copy()
 			c.PublicKey = g.PublicKey
 			join("removal", c12mut{"identifier of another group", c, "(KeyOk 5)", 8, "(SigBy 6 8)"}, false)
+		}
+		// a replication descriptor (or parts of one) presented as an invitation
+		if d, err := FilterGroupForReplication(g); err == nil {
+			c := d.Copy()
+			c.LinkKey, c.LinkKeySig = d.LinkKey, d.LinkKeySig
+			join("descriptor", c12mut{"replication descriptor as invitation", c, "(KeyOk 5)", 0, "SigNone"}, false)
+			c = d.Copy()
+			c.LinkKey, c.LinkKeySig = d.LinkKey, d.LinkKeySig
+			c.GroupType = protocoltypes.GroupType_GroupTypeMultiMember
+			join("descriptor", c12mut{"replication descriptor typed multi-member as invitation", c, "(KeyOk 5)", 0, "SigNone"}, false)
+			c = d.Copy()
+			c.LinkKey, c.LinkKeySig = d.LinkKey, d.LinkKeySig
+			c.GroupType = protocoltypes.GroupType_GroupTypeMultiMember
+			c.SecretSig = d.LinkKeySig
+			join("descriptor", c12mut{"replication descriptor with the link-key signature as secret signature", c, "(KeyOk 5)", 0, "(SigBy 5 9)"}, false)
+			c = d.Copy()
+			c.LinkKey, c.LinkKeySig = d.LinkKey, d.LinkKeySig
+			c.GroupType = protocoltypes.GroupType_GroupTypeMultiMember
+			c.Secret, c.SecretSig = d.LinkKey, d.LinkKeySig
+			// the link key IS signed by the group key: as a "secret" it would make a different group secret
+			join("descriptor", c12mut{"signed-link-key: link key and its signature presented as secret and signature", c, "(KeyOk 5)", 9, "(SigBy 5 9)"}, false)
 		}
 		// group-type substitution of the otherwise valid invitation
 		for _, ty := range []protocoltypes.GroupType{protocoltypes.GroupType_GroupTypeUndefined, protocoltypes.GroupType_GroupTypeAccount,
